@@ -15,15 +15,32 @@ def shape_of(inp, obs, clauses):
     """The failing shape a known finding is matched on: violated clause + transport route + decisive fields."""
     t = inp.split(" ")
     return {"clause": clauses[0] if clauses else "correspondence", "method": t[1],
-            "request_content_type": t[3] if t[1] == "POST" else "-"}
+            "request_content_type": t[3] if t[1] == "POST" else "-", "document": t[7][:2] if t[7].startswith("P") else t[7][:1]}
 
 
 def replay_text(descr, obs):
     d = json.loads(descr)
     hs = " ".join("-H '%s: %s'" % (k, v[0]) for k, v in sorted(d["headers"].items()))
     srv = ",".join(x["kind"] + ("[ct=%s]" % x["ct"] if x.get("ct") else "") + ("[+hdr]" if x.get("others") else "") for x in (d["server"] or []))
-    return "server transports %s; curl -X %s %s 'http://host%s' --data-binary %r  => observed (status content-type body executed) %s" % (
-        srv or "(none)", d["method"], hs, d["target"], d["body"][:400], obs)
+    return "server transports %s%s; curl -X %s %s 'http://host%s' --data-binary %r  => observed (status content-type body executed) %s" % (
+        srv or "(none)", cfg_text(d.get("config")), d["method"], hs, d["target"], d["body"][:400], obs)
+
+
+def cfg_text(c):
+    """the non-default handler.Server options of a case (harness scfg), as the calls that set them"""
+    if not c:
+        return ""
+    calls = []
+    if c.get("parser_token_limit"):
+        calls.append("SetParserTokenLimit(%d)" % c["parser_token_limit"])
+    if c.get("disable_suggestion"):
+        calls.append("SetDisableSuggestion(true)")
+    if c.get("error_presenter"):
+        calls.append("SetErrorPresenter(<%s>)" % {"strip": "returns a fresh error without extensions", "recode": "DefaultErrorPresenter, then sets extensions.code=GRAPHQL_PARSE_FAILED in place",
+                                                   "uncode": "DefaultErrorPresenter, then deletes extensions.code in place", "rewrap": "returns a fresh error with code WRAPPED"}.get(c["error_presenter"], c["error_presenter"]))
+    if c.get("context_mutator"):
+        calls.append("Use(<%s>)" % {"complexity0": "extension.FixedComplexityLimit(0)", "complexity9": "extension.FixedComplexityLimit(9)"}.get(c["context_mutator"], "OperationContextMutator " + c["context_mutator"]))
+    return " configured with " + ", ".join(calls)
 
 
 def curl(d):
@@ -35,8 +52,8 @@ def sequence_text(mn):
     """the minimal failing request sequence found by the harness (-min), as text"""
     seq = mn["sequence"]
     srv = seq[-1]["request"].get("server")
-    where = ("one server with query cache (size %s), APQ extension with a cache and transports %s" % (
-        srv.get("query_cache_size"), ",".join(t["kind"] for t in srv.get("transports", [])))) if isinstance(srv, dict) else \
+    where = ("one server with query cache (size %s), APQ extension with a cache and transports %s%s" % (
+        srv.get("query_cache_size"), ",".join(t["kind"] for t in srv.get("transports", [])), cfg_text(srv.get("config")))) if isinstance(srv, dict) else \
         "fresh default servers in one process (POST's pool of *RawParams is process wide)"
     lines = ["%d. %s  => %s  body %s" % (i + 1, curl(st["request"]), st["observed"], st["request"].get("response_body", "")[:200])
              for i, st in enumerate(seq)]
@@ -51,6 +68,7 @@ def run(ctx):
         "ResponseHeaders keys are in canonical spelling with one value each; errcode.RegisterErrorType is not called; no Websocket/SSE/multipart-mixed transport is registered (their bodies are streams, not one JSON response)",
         "ExecutableSchema.Exec does not panic out (generated executors recover, property C04); 'a resolver ran' is observed as 'ExecutableSchema.Exec was entered'",
         "APQ stands for every OperationParameterMutator: it either passes (possibly substituting the cached text) or stops the request with a user-kind error",
+        "server options: the class of a text under SetParserTokenLimit(n) is the parser's own answer under that limit (no error / *gqlerror.Error / plain error - library code); OperationContextMutators are modelled as 'refuses with an error carrying this code or none' (exercised: FixedComplexityLimit, three refusing mutators); error presenters are arbitrary functions of the error (exercised: four, two of them editing the error in place) - the model gives them no influence on status or content type; gqlparser's validation rule list is process wide (one custom rule registered for the whole harness run, SetDisableSuggestion's rule swap stays in effect once made)",
     ]
     ok_extract = ctx.extract("HttpStatus", "HttpHistory")
     proved = ok_extract and ctx.prove(props=["GqlgenVerif.Props.C09", "GqlgenVerif.Props.C09Hist"])
@@ -218,7 +236,7 @@ def run(ctx):
     ctx.cov.update({
         "evaluations": len(rows),
         "distinct_nontrivial": len(nontriv),
-        "rule": "exhaustive product {32 structured documents: 1-3 operations of mixed kinds, anonymous/named, with/without required variables, parse errors, validation errors, lone-anonymous and duplicate-name violations, empty and fragment-only documents} x operationName {absent, each name, unknown} x 10 carriers (GET, POST json, application/graphql raw/prefixed/escaped, urlencoded json/plain/bare/escaped, multipart) x 10 Accept sets, on the full transport list; ResponseHeaders {5 content types x other headers} x Accept x carriers; single-transport and empty servers; method x request content type x Upgrade grid; every decode failure; APQ miss/hit/mismatch; resolver errors; seeded random structured and malformed streams with shuffled/duplicated/dropped transports; request SEQUENCES: 13 directed sequences (corpus/C09/sequences.json, each on a large and a size-1 query cache) + seeded sessions against one long-lived server with query cache (size 1/2/16/1000), APQ extension with a cache and all transports, every generated request sent 2-3 times interleaved with the others (invalid-by-validation documents, parse errors, unknown operationName, variable coercion errors, mutations over GET, APQ register / hash-only / wrong hash, decode failures, operationName key absent / empty / set), every response compared with the stateless model, with the history model (query cache + APQ store + params pool) and judged by the Spec; a diverging answer is delta-debugged to a minimal request sequence. Non-trivial = distinct abstract request other than a default-configured 200 data answer without Accept",
+        "rule": "exhaustive product {32 structured documents: 1-3 operations of mixed kinds, anonymous/named, with/without required variables, parse errors, validation errors, lone-anonymous and duplicate-name violations, empty and fragment-only documents} x operationName {absent, each name, unknown} x 10 carriers (GET, POST json, application/graphql raw/prefixed/escaped, urlencoded json/plain/bare/escaped, multipart) x 10 Accept sets, on the full transport list; ResponseHeaders {5 content types x other headers} x Accept x carriers; single-transport and empty servers; method x request content type x Upgrade grid; every decode failure; APQ miss/hit/mismatch; resolver errors; SERVER CONFIGURATION grid {parser token limit 0/4/9/1000 x error presenter none/strip/recode-in-place/uncode-in-place/rewrap, token limit x operation-context mutator none/FixedComplexityLimit(0)/(9)/refusing without code/with a custom code/with GRAPHQL_VALIDATION_FAILED, suggestions disabled x presenter, presenter x mutator} x 14 refusal documents (runs, operationName decides, bad variables, syntax error early/late/behind the token limit, over the token limit = plain parser error, unknown field, lone anonymous, custom validation rule, suggestion-carrying errors, no operation) x operationName x carriers x {no Accept, json, graphql-response+json}; ACCEPT SURFACE: every ordered list of 1-3 (thorough 1-4) part categories {json, graphql-response+json, */*, application/*, a range the server cannot produce (14 of them), an unparsable part (14)} in seeded surface spellings (upper/title case, leading/trailing blanks and tabs, q-values incl. q=0, charset, quoted parameters, several parameters, trailing semicolon) x {runs, parse error, validation error} x one carrier per transport + no transport, also on a token-limited server, and as table-tie rows; request Content-Type surface (39 spellings: case, blanks, parameters, comma lists, near-miss types); seeded random structured and malformed streams with shuffled/duplicated/dropped transports, random configurations and Accept lists of up to 8 parts; request SEQUENCES: 19 directed sequences (corpus/C09/sequences.json, each on a large and a size-1 query cache) + seeded sessions against one long-lived server (every third one with random non-default options: token limit, suggestions off, presenter, context mutator) with query cache (size 1/2/16/1000), APQ extension with a cache and all transports, every generated request sent 2-3 times interleaved with the others (invalid-by-validation documents, parse errors, unknown operationName, variable coercion errors, mutations over GET, APQ register / hash-only / wrong hash, decode failures, operationName key absent / empty / set), every response compared with the stateless model, with the history model (query cache + APQ store + params pool) and judged by the Spec; a diverging answer is delta-debugged to a minimal request sequence. Non-trivial = distinct abstract request other than a default-configured 200 data answer without Accept",
         "input_distribution": dict(branch),
         "correspondence_divergences": div,
         "sequences": {"sessions": len(sqs), "requests": branch["sequence:request"]},
